@@ -94,12 +94,11 @@ func (r *Reader) HasAudio() bool {
 	return r.Header[TypeFlagsOffset]&TypeFlagsAudio != 0
 }
 
-const uninitializedTimestampDelta = 0xffffffff
-
 // Writer flv Writer
 type Writer struct {
 	w              io.Writer
 	timestampDelta uint32 // 流在中间输出时的相对时间戳
+	started        bool   // 是否已记录第一个 Tag 的时间戳
 }
 
 // NewWriter .
@@ -109,8 +108,7 @@ func NewWriter(w io.Writer, typeFlags byte) (*Writer, error) {
 	}
 
 	writer := &Writer{
-		w:              w,
-		timestampDelta: uninitializedTimestampDelta,
+		w: w,
 	}
 
 	var flvHeader [FlvHeaderSize]byte
@@ -140,7 +138,8 @@ func (w *Writer) writeTagSize(tagSize uint32) error {
 // WriteFlvTag write flv tag
 func (w *Writer) WriteFlvTag(tag *Tag) error {
 	// 记录第一个Tag的时间戳
-	if w.timestampDelta == uninitializedTimestampDelta {
+	if !w.started {
+		w.started = true
 		w.timestampDelta = tag.Timestamp
 	}
 
